@@ -189,7 +189,8 @@ return ok
     out.append(mk_case("c03.walk.empty", [("u1", U), ("u2", U)], body, pre=[f"BU({L}, u1, u2)"]))
     # history: a path resolves the same whatever paths were built before it in the process
     # (int / float / bool primitive parts that compare equal must keep their own part kind)
-    for n, (first, second) in enumerate([("2.0", "2"), ("2", "2.0"), ("True", "1"), ("1", "True"), ("1.0", "1"), ("0", "False"), ("0.0", "0"), ("1", "1.0")]):
+    for n, (first, second) in enumerate([("2.0", "2"), ("2", "2.0"), ("True", "1"), ("1", "True"), ("1.0", "1"), ("0", "False"), ("0.0", "0"), ("1", "1.0"),
+                                         ("1.0", "True"), ("True", "1.0"), ("0.0", "False"), ("False", "0.0")]):
         body = f"""
 doc = {{'l': [u1, u2, 5], 'm': {{2: u1, 1: u2, 0: 7}}}}
 before = DataPath('l', {first}), DataPath('m', {first})
